@@ -215,7 +215,7 @@ func (rc *restartCtx) stopAndRestart(clean bool) bool {
 	for _, e := range ents {
 		inFile[strings.Join(e.args, "\x00")]++
 	}
-	for k := range rc.acked {
+	for _, k := range sortedBoolKeys(rc.acked) { // (sorted: which of several lost writes is named must not depend on map order)
 		if inFile[k] == 0 {
 			w.violate(rc.class+"/lost-ack", "acknowledged write [%s] is not in the surviving log", clipStr(strings.ReplaceAll(k, "\x00", " "), 200))
 			return false
